@@ -285,7 +285,7 @@ def run(tier, seed, replay=None):
     c10.theorem_coverage(R, PID)
 
     pl.TINY_NZ = "FD8" in c10.load_known()
-    cases = c10.load_cases(replay, R.rng, tier)
+    cases = c10.load_cases(replay, R.rng, tier, pid_run=PID)
     n_gen = len(cases)
     if not replay:
         cases = [c for c in cases if not (c["fn"] in EPS_FUNCS and in_band(c))]
